@@ -78,6 +78,16 @@ def cmp_case_st(draw):
         if isinstance(v0, str):
             v0 = 1.0
         b = {"k": bk, "v": v0}
+        if bk == "num" and draw(st.integers(0, 4)) == 0:
+            # exact python numbers outside numpy's numeric types: an int beyond 64 bits, a Fraction (not Decimal, which
+            # refuses to mix with floats and to be compared with NaN: python's rules, nothing osyris decides)
+            how = draw(st.sampled_from(["bigint", "fraction"]))
+            if how == "bigint":
+                b["v"] = (2 ** 70) * (1 if float(v0) >= 0 else -1) + int(round(float(v0))) % 1000
+            else:
+                b["v"] = float(v0)
+                b["as"] = how
+            b["exact_python_number"] = how
         if bk == "npf":
             b["v"] = float(b["v"])
             b["dt"] = draw(st.sampled_from(["float64", "float64", "float32", "int64"]))
@@ -101,6 +111,8 @@ def compare(case, r):
     av, au = vs.model_of(case["a"])
     bv, bu = vs.model_of(case["b"])
     r.label("op_" + op, "bkind_" + case["b"]["k"])
+    if case["b"].get("exact_python_number"):
+        r.label("rhs_exact_python_number_" + case["b"]["exact_python_number"])
     with warnings.catch_warnings(), np.errstate(all="ignore"):
         warnings.simplefilter("ignore")
         try:
